@@ -380,6 +380,13 @@ def gen_op(rng, w):
     c = rng.choice(users)
     # ---- unbond tokens
     ubs = [(n, u, v) for (n, u), v in sorted(w.last["ubheld"].items()) if v > 0]
+    if ubs and sh["minub"] > 0 and not w.__dict__.get("minub_zeroed") and rng.random() < 0.05:
+        # the admin sets the unbond period to 0 while unbond tokens are outstanding: a token keeps ITS unlock epoch
+        n, u, v = rng.choice(ubs)
+        if u != PROXY:
+            w.minub_zeroed = True
+            _pend.append(["Unbond", u, n, v])
+            return ["SetMinUnbond", OWNER, 0]
     if ubs and roll < 0.30:
         n, u, v = rng.choice(ubs)
         kind = rng.random()
